@@ -10,4 +10,5 @@ pub mod probe_be;
 pub mod c11_dft;
 pub mod c18;
 pub mod c12;
+pub mod c17;
 pub mod generated;
